@@ -54,10 +54,14 @@ def main(argv=None):
                 first = {}
                 for r in pool.map(_digests, [e] * workers, [a.seed] * workers, chunks):
                     first.update(r)
-                second = {}
-                for r in pool.map(_digests, [e] * workers, [a.seed] * workers, list(reversed(chunks))):
-                    second.update(r)
-                diffs = [i for i in idx if first[i] != second[i]]
+                diffs = set()
+                # repeated passes: a divergence that shows once in three executions is caught by two runs only ~half the time
+                for _pass in range(1 if a.quick else 3):
+                    second = {}
+                    for r in pool.map(_digests, [e] * workers, [a.seed] * workers, list(reversed(chunks))):
+                        second.update(r)
+                    diffs |= {i for i in idx if first[i] != second[i]}
+                diffs = sorted(diffs)
                 herr = [i for i in idx if first[i][1]]
                 print(f'determinism {e}: workers={workers} n={n} same-process-pool diffs={len(diffs)} harness_errors={len(herr)}')
                 if diffs or herr:
